@@ -1,9 +1,239 @@
 import Qx.Driver.Proto
 import Qx.Xml.Tree
-/-! Driver ops with prefix `codec-` of the C01/C02 driver. -/
+import Qx.Xml.Canon
+import Qx.Xml.Codec.Schema
+import Qx.Xml.Codec.Classes
+/-!
+Driver ops with prefix `codec-` of the C01/C02 driver (tier C, schema-driven codecs).
+Fields of an op are separated by single blanks (or TABs); trees use the canonical encoding of
+`Qx/Xml/Canon.lean`, value lists the encoding of `showVals` below.
+
+  codec-norm <class> <tree>    canonical tree of `encode (decode x)`, or `reject` (class's own type check)
+  codec-dec  <class> <tree>    the field values the class reports for the tree, or `reject`
+  codec-enc  <class> <values>  canonical tree of `encode v`
+  codec-count <class>          size of the generated family
+  codec-gen  <class> <index>   canonical tree of `encode v_index`
+  codec-val  <class> <index>   `v_index` itself
+  codec-classes                names of the modelled classes
+-/
 namespace Qx.Driver.CodecOps
+open Qx.Xml Qx.Xml.Codec
+
+/-! ## value lists as text: `s<hex>` `n<dec>` `b0|b1` `o-|o<dec>` `A` `R( … )` `L( … )` -/
+
+mutual
+  partial def showVal : Val → String
+    | .str s => "s" ++ hexOf s
+    | .nat n => "n" ++ toString n
+    | .flag b => if b then "b1" else "b0"
+    | .opt none => "o-"
+    | .opt (some i) => "o" ++ toString i
+    | .absent => "A"
+    | .record vs => "R( " ++ showVals vs ++ " )"
+    | .list items => "L( " ++ showVals items ++ " )"
+  partial def showVals (vs : List Val) : String :=
+    if vs.isEmpty then "." else " ".intercalate (vs.map showVal)
+end
+
+def unhex (h : String) : Option Str :=
+  if h == "-" then some [] else
+  match fromHex h with
+  | some bs => (String.fromUTF8? (ByteArray.mk bs.toArray)).map String.toList
+  | none => none
+
+/-- values up to the matching `)` (or end of input); returns the rest -/
+partial def parseVals : List String → Option (List Val × List String)
+  | [] => some ([], [])
+  | ")" :: rest => some ([], ")" :: rest)
+  | "." :: rest => parseVals rest
+  | tok :: rest =>
+    let one : Option (Val × List String) :=
+      if tok == "A" then some (.absent, rest)
+      else if tok == "R(" || tok == "L(" then
+        match parseVals rest with
+        | some (vs, ")" :: rest') => some (if tok == "R(" then .record vs else .list vs, rest')
+        | _ => none
+      else match tok.toList with
+        | 's' :: h => (unhex (String.ofList h)).map fun s => (.str s, rest)
+        | 'n' :: d => (String.ofList d).toNat?.map fun n => (.nat n, rest)
+        | ['b', '0'] => some (.flag false, rest)
+        | ['b', '1'] => some (.flag true, rest)
+        | ['o', '-'] => some (.opt none, rest)
+        | 'o' :: d => (String.ofList d).toNat?.map fun n => (.opt (some n), rest)
+        | _ => none
+    match one with
+    | some (v, rest') => (parseVals rest').map fun r => (v :: r.1, r.2)
+    | none => none
+
+def readVals (s : String) : Option (List Val) :=
+  match parseVals (words s) with
+  | some (vs, []) => some vs
+  | _ => none
+
+/-! ## canonical trees -/
+
+def tokens (s : String) : List String :=
+  let padded := s.toList.flatMap fun c => if c == '(' || c == ')' then [' ', c, ' '] else [c]
+  words (String.ofList padded)
+
+mutual
+  /-- one node: `( E name ( attrs ) ( kids ) )` or `( T text )` -/
+  partial def parseNode : List String → Option (Node × List String)
+    | "(" :: "T" :: h :: ")" :: rest => (unhex h).map fun s => (.text s, rest)
+    | "(" :: "E" :: n :: "(" :: rest =>
+      match unhex n, parseAttrs rest with
+      | some name, some (as, "(" :: rest') =>
+        match parseNodes rest' with
+        | some (ks, ")" :: rest'') => some (.elem name as ks, rest'')
+        | _ => none
+      | _, _ => none
+    | _ => none
+  /-- attributes up to and including the closing `)` -/
+  partial def parseAttrs : List String → Option (List (Str × Str) × List String)
+    | ")" :: rest => some ([], rest)
+    | "(" :: k :: v :: ")" :: rest =>
+      match unhex k, unhex v, parseAttrs rest with
+      | some k', some v', some (as, rest') => some ((k', v') :: as, rest')
+      | _, _, _ => none
+    | _ => none
+  /-- nodes up to and including the closing `)` -/
+  partial def parseNodes : List String → Option (List Node × List String)
+    | ")" :: rest => some ([], rest)
+    | toks =>
+      match parseNode toks with
+      | some (n, rest) => (parseNodes rest).map fun r => (n :: r.1, r.2)
+      | none => none
+end
+
+def readTree (s : String) : Option Node :=
+  match parseNode (tokens s) with
+  | some (n, []) => some n
+  | _ => none
+
+/-! ## generated family of canonical values -/
+
+/-- adversarial strings, all made of XML-legal characters -/
+def pool : Array String := #[
+  "", "a", "romeo@montague.example/orchard", "x y", " lead", "trail ", "  ", "\t\n", "a\r\nb", "line1\nline2",
+  "<", ">", "&", "\"", "'", "<&>\"'", "]]>", "&amp;", "&#10;", "&lt;x&gt;", "<!--x-->", "<a b='c'/>", "</enable>",
+  "xmlns=\"urn:x\"", "é", "日本語", "😀", "a😀b\uFFFD", "true", "1", "0", "false", " 12 ", "+5", "-1", "007",
+  "18446744073709551616", " x　",
+  "abcdefghijklmnopqrstuvwxyzabcdefghijklmnopqrstuvwxyzabcdefghijklmnopqrstuvwxyzabcdefghijklmnopqrstuvwxyzabcdefghijklmnopqrstuvwxyz"]
+
+/-- splitmix-style mixing of (index, choice point) -/
+def mix (i c : Nat) : Nat :=
+  let z0 := (i * 0x9E3779B97F4A7C15 + c * 0xBF58476D1CE4E5B9 + 0x1234567) % 2 ^ 64
+  let z1 := ((z0 ^^^ (z0 >>> 30)) * 0xBF58476D1CE4E5B9) % 2 ^ 64
+  let z2 := ((z1 ^^^ (z1 >>> 27)) * 0x94D049BB133111EB) % 2 ^ 64
+  z2 ^^^ (z2 >>> 31)
+
+def pick (i c n : Nat) : Nat := if n == 0 then 0 else mix i c % n
+
+/-- presence decision at choice point `c`: indices below 256 enumerate all combinations of the first 8
+choice points, index 256 has everything present, larger ones are pseudo-random -/
+def present (i c : Nat) : Bool :=
+  if i < 256 then (if c < 8 then (i >>> c) % 2 == 1 else mix i c % 2 == 1)
+  else if i == 256 then true
+  else mix i c % 2 == 1
+
+def genScalar (ty : FTy) (i c : Nat) : Val × Nat :=
+  match ty with
+  | .str => (if present i c then .str (pool[pick i (c + 1) pool.size]!).toList else .str [], c + 2)
+  | .nat b =>
+    let cands := [1, 2 ^ b - 1, 2 ^ b - 2, 10, 4294967295 % 2 ^ b, mix i (c + 2) % 2 ^ b]
+    (if present i c then .nat (cands[pick i (c + 1) cands.length]!) else .nat 0, c + 3)
+  | .optNat b =>
+    let cands := [0, 1, 2 ^ b - 1, 10, mix i (c + 2) % 2 ^ b]
+    (if present i c then .opt (some (cands[pick i (c + 1) cands.length]!)) else .opt none, c + 3)
+  | .flag _ => (.flag (present i c), c + 1)
+  | .enum names =>
+    (if present i c && names.length > 0 then .opt (some (pick i (c + 1) names.length)) else .opt none, c + 2)
+
+mutual
+  partial def genF (f : Field) (i c : Nat) : Val × Nat :=
+    match f with
+    | .attr _ ty _ => genScalar ty i c
+    | .attrReadOnly _ ty => genScalar ty i c
+    | .text ty => genScalar ty i c
+    | .enumChild _ _ _ names m =>
+      if (m || present i c) && names.length > 0 then (.opt (some (pick i (c + 1) names.length)), c + 2)
+      else (.opt none, c + 2)
+    | .child _ fs mode =>
+      if mode == .optional && !present i c then (.absent, c + 1)
+      else let r := genFs fs i (c + 1); (.record r.1, r.2)
+    | .many _ fs =>
+      let n := if present i c then 1 + pick i (c + 1) 3 else 0
+      let r := genItems fs i (c + 2) n
+      (.list r.1, r.2)
+  partial def genFs (fs : List Field) (i c : Nat) : List Val × Nat :=
+    match fs with
+    | [] => ([], c)
+    | f :: rest =>
+      let a := genF f i c
+      let b := genFs rest i a.2
+      (a.1 :: b.1, b.2)
+  partial def genItems (fs : List Field) (i c n : Nat) : List Val × Nat :=
+    match n with
+    | 0 => ([], c)
+    | n + 1 =>
+      let a := genFs fs i c
+      let b := genItems fs i a.2 n
+      (.record a.1 :: b.1, b.2)
+end
+
+def genValue (S : Schema) (i : Nat) : List Val := (genFs S.fields i 0).1
+
+/-- number of choice points when everything is present (decides how large the exhaustive part is) -/
+def familySize (S : Schema) : Nat :=
+  let pts := (genFs S.fields 256 0).2
+  if pts == 0 then 1 else if pts ≤ 8 then 2 ^ pts + 64 else 257 + 256
+
+/-! ## the stepper -/
+
+/-- first blank/TAB-separated field and the rest -/
+def splitField (s : String) : String × String :=
+  let cs := s.toList
+  let a := cs.takeWhile fun c => c != ' ' && c != '\t'
+  (String.ofList a, String.ofList ((cs.drop a.length).drop 1))
+
+def withClass (name : String) (k : Schema → String) : String :=
+  match Classes.find name with
+  | some S => k S
+  | none => "bad-class"
 
 /-- handle one op line; `none` when the line is not ours -/
-def step (_line : String) : Option String := none
+def step (line : String) : Option String :=
+  let l := if line.endsWith "\n" then (line.dropEnd 1).toString else line
+  let (op, rest) := splitField l
+  if !op.startsWith "codec-" then none else
+  let (cls, arg) := splitField rest
+  some <|
+    if op == "codec-classes" then " ".intercalate (Classes.all.map (·.1))
+    else if op == "codec-norm" then withClass cls fun S =>
+      match readTree arg with
+      | some x => match S.norm x with
+        | some y => canon y
+        | none => "reject"
+      | none => "bad-tree"
+    else if op == "codec-dec" then withClass cls fun S =>
+      match readTree arg with
+      | some x => match S.parse x with
+        | some v => showVals v
+        | none => "reject"
+      | none => "bad-tree"
+    else if op == "codec-enc" then withClass cls fun S =>
+      match readVals arg with
+      | some v => if S.Canon v then canon (S.encode v) else "not-canonical"
+      | none => "bad-values"
+    else if op == "codec-count" then withClass cls fun S => toString (familySize S)
+    else if op == "codec-gen" then withClass cls fun S =>
+      match arg.trimAscii.toString.toNat? with
+      | some i => canon (S.encode (genValue S i))
+      | none => "bad-index"
+    else if op == "codec-val" then withClass cls fun S =>
+      match arg.trimAscii.toString.toNat? with
+      | some i => showVals (genValue S i)
+      | none => "bad-index"
+    else "bad-op"
 
 end Qx.Driver.CodecOps
